@@ -423,6 +423,27 @@ pub fn cases(ctx: &Ctx) -> Vec<Case> {
             }
         }
     }
+    // every specified transfer x primaries next to the Unspecified fields (round 9, seed C15K: a shortcut taken only
+    // for one transfer curve): conversions to YUV of thin frames on both sides of the size thresholds
+    for (oi, op) in [Op::RgbRefToYuv, Op::RgbToYuv, Op::LinToYuv, Op::XybToYuv].iter().enumerate() {
+        for &h in &[2usize, 480, 576] {
+            for m in [MC::BT709, MC::ST170M, MC::BT2020NonConstantLuminance] {
+                for subset in 1..8u8 {
+                    let ts: Vec<TC> = if subset & 4 != 0 { vec![TC::Unspecified] } else { oracle::SUP_TC.to_vec() };
+                    let ps: Vec<CP> = if subset & 2 != 0 { vec![CP::Unspecified] } else { oracle::SUP_CP.to_vec() };
+                    for &t in &ts {
+                        for &p in &ps {
+                            if t == base_t && p == base_p {
+                                continue; // in the list above
+                            }
+                            let c = cfg(if subset & 1 != 0 { MC::Unspecified } else { m }, t, p, 8, (h + oi) % 2 == 0, (0, 0));
+                            out.push(Case { op: *op, w: 16, h, cfg: c, u8_storage: true, content_seed: 0, pad: (0, 0) });
+                        }
+                    }
+                }
+            }
+        }
+    }
     // common picture sizes (constructor only: the resolution is a function of config and size)
     const COMMON: [(usize, usize); 16] = [
         (176, 144), (320, 240), (352, 288), (640, 360), (640, 480), (704, 480), (720, 480), (720, 486), (720, 576), (768, 576),
@@ -694,4 +715,4 @@ pub fn replay(v: &Value) -> Result<(), String> {
     check(&c, &mut Stats::new()).map_err(|v| v.message)
 }
 
-pub const RULE: &str = "enumeration: widths {1,2,16,1279,1280,1281} x heights {1,2,479..=489,575..=577,1279..=1281} x matrices x the 8 subsets of {matrix, primaries, transfer} set to Unspecified x {Yuv::new, Rgb::new, (LinearRgb|Xyb,t,p)->Rgb, (&Rgb|Rgb|LinearRgb|Xyb,cfg)->Yuv} (thorough: depths 8/10/16, random colour content, conversions of large frames). Oracle: (i) no accessor returns Unspecified; (ii) the resolved values equal the heuristic re-implemented from the statement, are the same on a second call and for other sample data; (iii) label = content: converting the same input with the stored (resolved) config given explicitly yields the same samples within max(1, 1.5% of the code range), and decoding the output with its own config and re-encoding reproduces them within the same budget. Frames handed to Yuv::new are also built with Plane::new paddings (storage geometry must not matter); every case is preceded by a call on the transposed shape (equal area) and by a sibling call with the same size and given metadata but another range/depth (no state may leak between calls); conversions are also preceded by the same conversion under other primaries and compared with the same conversion on a fresh thread. In addition: subsampled frames (4:2:2, 4:2:0, 4:4:0, 4:1:1, 4:1:0) whose luma and chroma sizes fall on different sides of the thresholds (16 sizes x 15 matrices x 7 subsets, Yuv::new and (&Rgb,cfg)->Yuv), and all 714^2 ordered pairs of configs with an Unspecified field as two-step Yuv::new histories on one thread at two sizes (the second call must resolve as the heuristic says), and the same config on two frames whose width or height differ by 65536 or that lie in different size classes, in both orders (18 size pairs x 714 configs). Conversions that fail are counted, not judged. A case = one (operation, size, config) triple; non-trivial = at least one field Unspecified; distinct by construction (hash of the case)";
+pub const RULE: &str = "enumeration: widths {1,2,16,1279,1280,1281} x heights {1,2,479..=489,575..=577,1279..=1281} x matrices x the 8 subsets of {matrix, primaries, transfer} set to Unspecified x {Yuv::new, Rgb::new, (LinearRgb|Xyb,t,p)->Rgb, (&Rgb|Rgb|LinearRgb|Xyb,cfg)->Yuv}, the specified fields being BT470BG / Film; plus, for the four conversions to YUV on 16x{2,480,576} frames, every supported transfer x every supported primaries as the specified fields (thorough: depths 8/10/16, random colour content, conversions of large frames). Oracle: (i) no accessor returns Unspecified; (ii) the resolved values equal the heuristic re-implemented from the statement, are the same on a second call and for other sample data; (iii) label = content: converting the same input with the stored (resolved) config given explicitly yields the same samples within max(1, 1.5% of the code range), and decoding the output with its own config and re-encoding reproduces them within the same budget. Frames handed to Yuv::new are also built with Plane::new paddings (storage geometry must not matter); every case is preceded by a call on the transposed shape (equal area) and by a sibling call with the same size and given metadata but another range/depth (no state may leak between calls); conversions are also preceded by the same conversion under other primaries and compared with the same conversion on a fresh thread. In addition: subsampled frames (4:2:2, 4:2:0, 4:4:0, 4:1:1, 4:1:0) whose luma and chroma sizes fall on different sides of the thresholds (16 sizes x 15 matrices x 7 subsets, Yuv::new and (&Rgb,cfg)->Yuv), and all 714^2 ordered pairs of configs with an Unspecified field as two-step Yuv::new histories on one thread at two sizes (the second call must resolve as the heuristic says), and the same config on two frames whose width or height differ by 65536 or that lie in different size classes, in both orders (18 size pairs x 714 configs). Conversions that fail are counted, not judged. A case = one (operation, size, config) triple; non-trivial = at least one field Unspecified; distinct by construction (hash of the case)";
